@@ -70,6 +70,8 @@ theorem shrink_drainLoop (w : Nat) (q : List Entry) : ∀ c : Core, Shrink c (dr
     intro c
     simp only [drainLoop]
     split
+    · exact ⟨rfl, rfl, rfl, rfl, rfl, rfl, fun _ h => h⟩
+    split
     · exact (shrink_emit _ _).trans (ih _)
     · split
       · exact (shrink_emit _ _).trans (ih _)
@@ -996,6 +998,8 @@ theorem ctr_drainLoop (w : Nat) (q : List Entry) : ∀ {c : Core}, CTr c → CTr
     intro c h
     simp only [drainLoop]
     split
+    · exact h
+    split
     · exact ih (h.emit rfl)
     · split
       · exact ih (h.emit rfl)
@@ -1230,6 +1234,8 @@ theorem sameFlags_drainLoop (w : Nat) (q : List Entry) : ∀ c : Core, SameFlags
   | cons e rest ih =>
     intro c
     simp only [drainLoop]
+    split
+    · exact ⟨rfl, rfl⟩
     split
     · exact (sameFlags_emit _ rfl).trans (ih _)
     · split
@@ -2341,6 +2347,8 @@ theorem monOpen_drainLoop (w : Nat) (q : List Entry) : ∀ {c : Core}, MonOpen c
   | cons e rest ih =>
     intro c h
     simp only [drainLoop]
+    split
+    · exact h.of_trace_eq rfl
     split
     · exact ih (h.emit rfl)
     · split
